@@ -4,6 +4,26 @@ and the last entry is torn (zero-filled / bit-flipped); aof.New must fail or yie
 import json
 import vf, aoflib
 
+def _records(data):
+    """offsets of the records of a log segment (each is uvarint(length) + bytes), or None if the bytes are not such a sequence"""
+    out, i = [0], 0
+    while i < len(data):
+        n, shift = 0, 0
+        while True:
+            if i >= len(data) or shift > 63:
+                return None
+            c = data[i]; i += 1
+            n |= (c & 0x7f) << shift
+            shift += 7
+            if c < 0x80:
+                break
+        i += n
+        if i > len(data):
+            return None
+        out.append(i)
+    return out
+
+
 def run(ck):
     b = ck.build("aof")
     ck.tlc("AOF", aoflib.mc_cfg(aoflib.CODE_SKIP_CONFLICT, 3 if not ck.thorough else 4, invs="TailLoss", maxcrash=2, children='{"c"}'))
@@ -28,6 +48,16 @@ def run(ck):
             imgs.append(f); what.append("zerofill-last-%d" % k)
             f = dict(final); f[tail] = data[:-k] + bytes([data[-k] ^ 0x5a]) + data[len(data) - k + 1:]
             imgs.append(f); what.append("flip@-%d" % k)
+        bounds = _records(data)          # a hole of zeroes over whole records (length prefix included) with intact records behind it
+        if bounds is None:
+            ck.notes.append("tail segment of history %d is not a sequence of length-prefixed records: no zeroed-record images" % hi)
+        else:
+            nrec = len(bounds) - 1
+            ck.extra["tail_records"] = ck.extra.get("tail_records", 0) + nrec
+            for i in range(nrec):
+                for j in range(i + 1, min(nrec, i + 3) + 1):
+                    f = dict(final); f[tail] = data[:bounds[i]] + b"\0" * (bounds[j] - bounds[i]) + data[bounds[j]:]
+                    imgs.append(f); what.append("zeroed-records@%d..%d/%d" % (i + 1, j, nrec))
         res = aoflib.reopen(ck, b, imgs)
         ps = aoflib.prefix_states(h)
         for w, o in zip(what, res):
@@ -44,5 +74,5 @@ def run(ck):
     ck.traces += len(hs)
     ck.extra["damaged_images_reopened"] = total
     ck.rule = ("for TLC-generated histories run on the real store: every truncation offset of the tail segment (all bytes up to 400, sampled beyond), "
-               "zero-filled and bit-flipped tails of 1..48 bytes; each image is reopened; non-trivial = every image; distinct = (history, damage)")
+               "zero-filled and bit-flipped tails of 1..48 bytes, every run of 1..3 whole records replaced by zeroes (with the records behind it intact); each image is reopened; non-trivial = every image; distinct = (history, damage)")
     ck.assumptions += ["only the tail segment is damaged (earlier segments were closed long before); checksum strength (crc64) is trusted: flips are sampled"]
